@@ -57,8 +57,9 @@ import (
 	kit "github.com/liftbridge-io/liftbridge/internal/verifkit"
 )
 
+var c13Watchdog = time.Duration(kit.EnvInt("C13_WATCHDOG_MS", 30000)) * time.Millisecond
+
 const (
-	c13Watchdog  = 30 * time.Second
 	c13BaseEpoch = 5
 	c13Accepted  = "accepted"
 	c13InitMsgs  = 5
@@ -76,6 +77,7 @@ type c13Act struct {
 	B             int    `json:"b,omitempty"`
 	Gate          bool   `json:"drainGate,omitempty"`     // consumer goroutine starts receiving only when released
 	CloseAfterEnd bool   `json:"closeAfterEnd,omitempty"` // consumer calls sub.Close() after the terminal status (as api.Subscribe does)
+	Linger        bool   `json:"linger,omitempty"`        // consumer does NOT cancel the context when it sees Closed() (the loop stays parked in ReadMessage until quiescence)
 	Target        string `json:"target,omitempty"`        // latest | random (cancel, close, undrain)
 	All           bool   `json:"all,omitempty"`           // release: all parked clean-ups (else the oldest)
 	Pre           int    `json:"pre,omitempty"`           // schedule perturbation before the action
@@ -157,6 +159,7 @@ type c13Sub struct {
 	probe         chan chan struct{}
 	done          chan struct{}
 	closeAfterEnd bool
+	linger        bool
 	forever       bool
 
 	endedAt      atomic.Int64 // consumer goroutine received the loop's terminal status
@@ -246,9 +249,16 @@ func (s *c13Sub) drain() {
 				s.selfClose.Store(s.c.tick())
 				s.sub.Close()
 			}
+			s.cancel() // api.Subscribe returns here, which ends the gRPC stream context
 			return
 		case <-s.sub.Closed():
 			s.sawClosedAt.Store(s.c.tick())
+			if !s.linger {
+				// api.Subscribe returns on Closed(), which ends the gRPC
+				// stream context; that is what wakes a loop parked in
+				// ReadMessage at the end of the log.
+				s.cancel()
+			}
 			return
 		case r := <-s.probe:
 			close(r)
@@ -264,6 +274,11 @@ type c13Pass struct {
 	Release    int64
 	How        string
 	ActiveSeen []int // subscriptions of the group that were ACTIVE when the clean-up was let go
+	LookFrom   int64
+	doneBy     int64 // a quiescent point by which this clean-up had completed (0: not known)
+	ReadAt     int64
+	entrySeen  *subscription // the group entry right before this clean-up went on to removeGroupSubscriber's critical section
+	entryDesc  string
 	gate       chan struct{}
 }
 
@@ -289,6 +304,7 @@ type c13Case struct {
 	groups []string
 	prog   []c13Round
 	policy string // hook policy: random | park | pass
+	label  string
 	clock  atomic.Int64
 
 	mu         sync.Mutex
@@ -314,7 +330,10 @@ type c13Case struct {
 var c13Groups sync.Map
 
 // c13Demoed: fingerprints for which the consequence was already demonstrated.
-var c13Demoed sync.Map
+var (
+	c13DemoMu sync.Mutex
+	c13Demoed = map[string]bool{}
+)
 
 func c13Hook(args ...interface{}) error {
 	if len(args) < 4 {
@@ -394,9 +413,19 @@ func (c *c13Case) onHook(group, cid string) {
 	case "park":
 		<-p.gate
 	}
-	// Which subscriptions of the group are ACTIVE while this clean-up is let
-	// go?  (An ACTIVE one cannot be the loop that is exiting here.)
+	// What is the group entry this clean-up is about to look at, and which
+	// subscriptions of the group are ACTIVE while it is let go?  (An ACTIVE
+	// one cannot be the loop that is exiting here.)
+	lookFrom := c.tick()
+	var seenSub *subscription
+	var desc string
+	if e := c.st.p.GetGroupConsumer(group); e != nil {
+		seenSub = e.sub
+		desc = fmt.Sprintf("{consumer %s epoch %d}", e.consumerID, e.groupEpoch)
+	}
+	readAt := c.tick()
 	c.mu.Lock()
+	p.LookFrom, p.ReadAt, p.entrySeen, p.entryDesc = lookFrom, readAt, seenSub, desc
 	subs := append([]*c13Sub(nil), c.subs...)
 	c.mu.Unlock()
 	var seen []int
@@ -499,7 +528,7 @@ func (c *c13Case) doSub(a c13Act) *c13Call {
 	} else {
 		call.Result = c13Accepted
 		s = &c13Sub{c: c, call: call, sub: sub, cancel: cancel, gate: make(chan struct{}),
-			probe: make(chan chan struct{}), done: make(chan struct{}), closeAfterEnd: a.CloseAfterEnd,
+			probe: make(chan chan struct{}), done: make(chan struct{}), closeAfterEnd: a.CloseAfterEnd, linger: a.Linger,
 			forever: a.Mode == "new" || a.Mode == "earliest"}
 		s.lastOff.Store(-1)
 		call.sub = s
@@ -624,29 +653,58 @@ func (c *c13Case) quiesce(final bool) bool {
 		if final {
 			s.harnessClose.CompareAndSwap(0, c.tick())
 			s.sub.Close()
-			s.cancel()
+		}
+		if !s.active() {
+			s.cancel() // wake lingering loops of dead subscriptions (a dead subscription never becomes ACTIVE again)
 		}
 	}
 	c.releaseParked(true)
+	var state string
+	stable := false
 	ok := c.wait(func() bool {
 		c.releaseParked(true)
 		nact := 0
 		for _, s := range subs {
 			if s.active() {
 				nact++
+				if !s.forever {
+					return false // has a stop position and its consumer is receiving: it will end by itself
+				}
+			} else {
+				s.cancel()
 			}
 		}
 		c.mu.Lock()
 		fired, exited := c.hookFired, c.hookExited
 		c.mu.Unlock()
-		return fired == exited && exited == len(subs)-nact && c.subscriberCount() == int64(nact)
+		cnt := c.subscriberCount()
+		if fired == exited && exited == len(subs)-nact && cnt == int64(nact) && !stable {
+			// look twice: a loop that has not yet counted itself and a
+			// clean-up that has not yet uncounted itself cancel out
+			stable = true
+			time.Sleep(200 * time.Microsecond)
+			return false
+		}
+		if !(fired == exited && exited == len(subs)-nact && cnt == int64(nact)) {
+			stable = false
+		}
+		state = fmt.Sprintf("accepted=%d active=%d cleanups entered=%d left=%d partition.subscriberCount=%d", len(subs), nact, fired, exited, cnt)
+		return fired == exited && exited == len(subs)-nact && cnt == int64(nact)
 	})
 	c.mu.Lock()
 	c.quiescing = false
+	if ok {
+		now := c.tick()
+		for _, p := range c.passes {
+			if p.doneBy == 0 && p.Release != 0 {
+				p.doneBy = now
+			}
+		}
+	}
 	c.mu.Unlock()
 	if !ok && !c.failed {
 		c.inconc = true
-		c.rep.Inconc(fmt.Sprintf("%s case %d: watchdog while waiting for quiescence (loops that should have ended and cleaned up)", c.unit, c.id))
+		c.rep.Inconc(fmt.Sprintf("%s case %d: watchdog while waiting for quiescence (loops that should have ended and cleaned up): %s; program %s", c.unit, c.id, state, c13ProgString(c.prog)))
 	}
 	return ok
 }
@@ -686,8 +744,17 @@ func (c *c13Case) history() []string {
 	}
 	for _, p := range c.passes {
 		ev = append(ev, c13Event{p.Fire, fmt.Sprintf("an exited loop of (%s, consumer %s) reaches removeGroupSubscriber [%s]", p.Group, p.Cid, p.How)})
-		if p.Release != 0 {
-			ev = append(ev, c13Event{p.Release, fmt.Sprintf("that clean-up of (%s, consumer %s) proceeds to remove the group entry; ACTIVE subscriptions of the group at that moment: %v", p.Group, p.Cid, p.ActiveSeen)})
+		if p.ReadAt != 0 {
+			entry := "nil"
+			if p.entrySeen != nil {
+				entry = p.entryDesc
+				for _, s := range c.subs {
+					if s.sub == p.entrySeen {
+						entry = fmt.Sprintf("sub#%d %s", s.Idx, p.entryDesc)
+					}
+				}
+			}
+			ev = append(ev, c13Event{p.ReadAt, fmt.Sprintf("that clean-up of (%s, consumer %s) goes on into removeGroupSubscriber; group entry just before: %s; ACTIVE subscriptions of the group: %v", p.Group, p.Cid, entry, p.ActiveSeen)})
 		}
 	}
 	c.mu.Unlock()
@@ -703,7 +770,7 @@ func (c *c13Case) violation(fp, what string, extra map[string]interface{}) {
 	c.failed = true
 	replay := map[string]interface{}{
 		"unit": c.unit, "VERIF_SEED": kit.Seed(), "tier": kit.Tier(), "case": c.id, "case_seed": c.seed,
-		"hook_policy": c.policy, "program": c13ProgString(c.prog), "program_json": c.prog,
+		"hook_policy": c.policy, "label": c.label, "program": c13ProgString(c.prog), "program_json": c.prog,
 		"history": c.history(), "observed_vs_expected": what,
 	}
 	for k, v := range extra {
@@ -712,39 +779,31 @@ func (c *c13Case) violation(fp, what string, extra map[string]interface{}) {
 	c.rep.Violation(fp, what, replay)
 }
 
-// staleClass classifies the loss of the entry of / the failure to cancel
-// subscription o by the clean-ups that ran while o was ACTIVE.
+// staleClass names the clean-up that removed the entry of the ACTIVE
+// subscription o.  Exact when a clean-up saw o's subscription as the group
+// entry right before entering removeGroupSubscriber's critical section;
+// otherwise (o was installed between that look and the removal) the clean-ups
+// that looked before o's Subscribe returned are the only possible culprits.
 func (c *c13Case) staleClass(o *c13Sub) string {
 	c.mu.Lock()
 	defer c.mu.Unlock()
 	same, other := false, false
 	for _, p := range c.passes {
-		if p.Group != o.call.Group || p.Release == 0 {
-			continue
+		if p.Group != o.call.Group || (p.doneBy != 0 && p.doneBy < o.call.Inv) {
+			continue // other group, or completed before o was even requested
 		}
-		for _, i := range p.ActiveSeen {
-			if i == o.Idx {
-				if p.Cid == o.call.Cid {
-					same = true
-				} else {
-					other = true
-				}
-			}
-		}
-	}
-	if !same && !other { // registration of o may have lagged behind the hook: fall back on stamps
-		for _, p := range c.passes {
-			if p.Group == o.call.Group && p.Release > o.call.Inv {
-				if p.Cid == o.call.Cid {
-					same = true
-				} else {
-					other = true
-				}
+		// p can have removed o's entry if it saw it, or if it looked before
+		// o's Subscribe returned (o installed between the look and the removal)
+		if p.entrySeen == o.sub || p.LookFrom == 0 || p.LookFrom < o.call.Ret {
+			if p.Cid == o.call.Cid {
+				same = true
+			} else {
+				other = true
 			}
 		}
 	}
 	switch {
-	case same:
+	case same: // the unchanged removeGroupSubscriber only removes an entry of its own consumer id
 		return "stale-cleanup-same-consumer-id"
 	case other:
 		return "stale-cleanup-other-consumer-id"
@@ -849,7 +908,10 @@ func (c *c13Case) check(quiescent bool) {
 			}
 		}
 		if len(act) > 1 {
-			older := act[0]
+			older := act[0] // the one the partition does not know (any more)
+			if older == named {
+				older = act[1]
+			}
 			cls := c.staleClass(older)
 			var l []string
 			for _, s := range act {
@@ -867,7 +929,12 @@ func (c *c13Case) check(quiescent bool) {
 				cls := c.staleClass(o)
 				fp := "C13:entry-lost:" + cls
 				extra := map[string]interface{}{}
-				if _, done := c13Demoed.LoadOrStore(fp, true); !done {
+				// the first case that reports a fingerprint also demonstrates
+				// the consequence; serialised so that its replay is the one kept
+				c13DemoMu.Lock()
+				defer c13DemoMu.Unlock()
+				if !c13Demoed[fp] {
+					c13Demoed[fp] = true
 					extra["consequence"] = c.demo(o)
 				}
 				c.violation(fp,
@@ -878,6 +945,7 @@ func (c *c13Case) check(quiescent bool) {
 		}
 		if len(act) == 0 && quiescent && e != nil {
 			c.n("stale_entry_at_quiescence(observation)", 1)
+			c.rep.SetInfo("stale_entry_example", map[string]interface{}{"case": c.id, "program": c13ProgString(c.prog), "entry": entry, "history": c.history()})
 		}
 		if len(act) == 1 {
 			c.n("checks_with_active_holder_named_by_GetGroupConsumer", 1)
